@@ -7,6 +7,7 @@ package main
 import (
 	"fmt"
 	"io"
+	"runtime"
 	"sync"
 
 	"verifharness/internal/hx"
@@ -168,15 +169,16 @@ func newLivePipe() *livePipe {
 }
 
 func (p *livePipe) Write(b []byte) (int, error) {
-	p.mu.Lock()
-	defer p.mu.Unlock()
 	if len(b) == 0 {
 		return 0, nil
 	}
+	p.mu.Lock()
 	p.q = append(p.q, append([]byte{}, b...))
 	p.sizes = append(p.sizes, len(b))
 	p.all = append(p.all, b...)
 	p.cond.Broadcast()
+	p.mu.Unlock()
+	runtime.Gosched() // let other writers in between two Write calls of one goroutine
 	return len(b), nil
 }
 
